@@ -112,6 +112,14 @@ def run_case(case, ctx):
     for what, a1, a2, flip in (("int array vs fractional float array", iarr(S), farr(Th), False), ("fractional float array vs int array", farr(Th), iarr(S), True)):
         vm, _ = call_warn(ctx, persim.wasserstein, a1, a2)
         check_value(ctx, "value-mixed-dtype", vm, rm, 1e3, what, Th if flip else S, S if flip else Th)
+    # a float32 array (lattice values, exact in single precision) against a float64 array whose values are
+    # NOT representable in single precision, both orders: the wider argument must not be rounded to the other's dtype
+    Tq = [[x / 3.0 + 0.1 + 1e-9 for x in p_] for p_ in T]
+    rq, _ = om.wasserstein_ref(S, Tq)
+    S32 = np.array(S, dtype=np.float32).reshape(-1, 2)
+    for what, a1, a2, X_, Y_ in (("float32 array vs float64 array", S32, farr(Tq), S, Tq), ("float64 array vs float32 array", farr(Tq), S32, Tq, S)):
+        vq, _ = call_warn(ctx, persim.wasserstein, a1, a2)
+        check_value(ctx, "value-mixed-dtype", vq, rq, 1e3, what, X_, Y_)
     # integer-typed arrays with large values / narrow or unsigned dtypes
     for dt, kk in ((np.int64, 4 * 10 ** 9), (np.int32, 50000), (np.uint8, 60)):
         Si = (np.array(S, dtype=np.int64).reshape(-1, 2) * kk).astype(dt)
